@@ -15,7 +15,7 @@ from .c07 import blocks_of, compare_output
 
 ID = "C16"
 GUARD_KERNELS = True
-SHRINK_LISTS = ("ops", "faults", "ranges")
+SHRINK_LISTS = ("ops", "faults", "ranges", ("files", "nsamps"))
 SHRINK_MIN = {"nchans": 2, "nbits": 1, "gulp": 1}
 FCH1, FOFF = 1500.0, -0.5
 
